@@ -128,6 +128,11 @@ class FuncVal:
         return "<func %s>" % self.qualname()
 
 
+class Partial:
+    def __init__(self, func, args, kwargs):
+        self.func, self.args, self.kwargs = func, list(args), dict(kwargs)
+
+
 class BoundMethod:
     def __init__(self, func, self_val):
         self.func = func
